@@ -20,6 +20,7 @@ import (
 	"sync"
 	"time"
 
+	"honnef.co/go/tools/lintcmd/runner"
 	"verifharness/hx"
 )
 
@@ -60,6 +61,7 @@ type Out struct {
 	RefDiags   []Diag // printed diagnostics of the reference run (for the sort-key obligation)
 	RaceRuns   int
 	RaceLog    string
+	Stress     map[string]int // rounds of the DecrementPending stress per number of goroutines
 }
 
 type Diag struct {
@@ -95,11 +97,33 @@ func main() {
 	par := flag.Int("par", 4, "concurrent runs")
 	ntraced := flag.Int("traced", 1000, "how many of the runs naming all packages record their scheduler trace")
 	withText := flag.Bool("text", true, "also compare two runs with the text formatter")
+	ndirs := flag.Int("dirruns", 8, "cold runs of the package with overlapping linter directives (directive order is map iteration order, per process)")
+	stress := flag.Int("stress", 300000, "rounds of the DecrementPending stress (k = 2; a third of it for k = 3, 4)")
 	n117 := flag.Int("go117", 3, "runs with -go 1.17 (a package then fails while the runner executes) besides their reference")
 	flag.Parse()
 	rnd := hx.NewRand(*seed)
 	env = hx.GoEnv()
 	out := &Out{Seed: *seed, Files: map[string]string{}}
+
+	// the one synchronisation point of the protocol, on the real code and without any hook around it: k handlers
+	// that decrement a counter at k at the same moment; exactly one must be told it was the last (the model's EDec)
+	out.Stress = map[string]int{}
+	for _, k := range []int{2, 3, 4} {
+		n := *stress
+		if k > 2 {
+			n /= 3
+		}
+		if n == 0 {
+			continue
+		}
+		bad, first := runner.VerifDecrementStress(n, k)
+		out.Stress[fmt.Sprint(k)] = n
+		if bad > 0 {
+			out.Violations = append(out.Violations, Violation{"decrement-not-atomic",
+				fmt.Sprintf("baseAction.DecrementPending: %d goroutines decrementing a counter at %d at the same moment: in %d of %d rounds not exactly one of them was told it was the last (first such round: %v): a dependent can be enqueued twice or never", k, k, bad, n, first),
+				map[string]any{"goroutines": k, "rounds": n, "bad_rounds": bad, "first_bad_results": first, "replay": "runner.VerifDecrementStress (lintcmd/runner/verif_stress.go, -tags verif)"}})
+		}
+	}
 
 	mod := filepath.Join(work, "mod")
 	pkgs := genModule(mod, rnd.Fork(), out.Files)
@@ -191,6 +215,14 @@ func main() {
 			r.Trace = ""
 		}
 	}
+	// overlapping directives: which of two directives covering one problem is visited first is decided by map
+	// iteration in lint.ParseDirectives, anew in every process that analyses the package
+	var dirRuns []*Run
+	for i := 0; i < *ndirs; i++ {
+		r := mk("dirs", gmps[i%len(gmps)], 0, []string{"./dirs"}, "json", true)
+		r.Trace = ""
+		dirRuns = append(dirRuns, r)
+	}
 	// U1000 is decided per package: an object with the same name, file name and line in two packages, used in one
 	// and unused in the other; named alone, in both orders, and together with everything (the reference)
 	mk("partial", 2, 1+rnd.Uint64()%1000000, []string{"./dupb"}, "json", true)
@@ -260,6 +292,12 @@ func main() {
 	}
 	if !ref117.TimedOut && !strings.Contains(ref117.Stdout, "requires go1.18 or later") {
 		viol("harness:no-runtime-failure", "the -go 1.17 reference run does not report the type-check failure of package rtfail: the scenario of a package failing while the runner executes is not exercised", map[string]any{"stdout": ref117.Stdout, "stderr": ref117.Stderr})
+	}
+	for _, r := range dirRuns[min(1, len(dirRuns)):] {
+		if !r.TimedOut && !dirRuns[0].TimedOut && (r.Stdout != dirRuns[0].Stdout || r.Exit != dirRuns[0].Exit) {
+			viol("nondeterministic-output", fmt.Sprintf("same input, different output: two cold runs of ./dirs (overlapping //lint:file-ignore and //lint:ignore directives) differ (%s vs %s)", dirRuns[0].ID, r.ID),
+				map[string]any{"run": descr(r), "ref": descr(dirRuns[0]), "diff": firstDiff(dirRuns[0].Stdout, r.Stdout), "ref_stdout": dirRuns[0].Stdout, "run_stdout": r.Stdout})
+		}
 	}
 	if !tx0.TimedOut && !tx1.TimedOut && (tx0.Stdout != tx1.Stdout || tx0.Exit != tx1.Exit) {
 		viol("nondeterministic-output", "same input, different text output", map[string]any{"run": descr(tx1), "ref": descr(tx0), "diff": firstDiff(tx0.Stdout, tx1.Stdout)})
@@ -619,6 +657,15 @@ func genModule(dir string, rnd *hx.Rand, files map[string]string) []string {
 			write(s.name+"/"+s.name+"_x_test.go", x.String())
 		}
 	}
+	// package dirs: in every file a //lint:file-ignore and a //lint:ignore both cover the one SA4018 problem
+	for k := 0; k < 4; k++ {
+		doc := ""
+		if k == 0 {
+			doc = "// Package dirs has overlapping linter directives.\n"
+		}
+		write(fmt.Sprintf("dirs/f%d.go", k), fmt.Sprintf(doc+"package dirs\n\n//lint:file-ignore SA4018 the whole file is exempt\n\n// A%d has a self-assignment that is also exempt on its own line.\nfunc A%d(n int) int {\n\tx := n\n\t//lint:ignore SA4018 exempt here as well\n\tx = x\n\treturn x\n}\n", k, k))
+	}
+	names = append(names, "dirs")
 	sort.Strings(names)
 	return names
 }
